@@ -699,6 +699,27 @@ func (g *histGen) genGroupEpisode() []*blockSpec {
 	return []*blockSpec{b1, b2}
 }
 
+// genTimeoutBurst is one block with requests of several pairs that all expire at the same height (one shared timeout list).
+func (g *histGen) genTimeoutBurst() *blockSpec {
+	t, w := g.t, g.w
+	T := rapid.SampledFrom([]int64{1, 2, 3, 5}).Draw(t, "burstT")
+	order := rapid.Permutation(intsUpTo(len(g.pairs))).Draw(t, "burstPairs")
+	n := rapid.IntRange(2, len(order)).Draw(t, "burstSize")
+	b := &blockSpec{}
+	proof := []byte("1")
+	for _, pi := range order[:n] {
+		pr := g.pairs[pi]
+		idx := g.reqIdx[pi] + 1
+		g.reqIdx[pi] = idx
+		ib := &pb.IBTP{From: pr.from, To: pr.to, Index: idx, TimeoutHeight: T, Proof: sim.ProofHash(proof), Type: pb.IBTP_INTERCHAIN}
+		b.txs = append(b.txs, &txSpec{kind: "ibtp-req", tx: w.IBTP(pr.srcKey, ib, proof), desc: fmt.Sprintf("burst: ibtp-req pair%d idx=%d T=%d", pi, idx, T)})
+	}
+	w.TS += 10
+	b.ts = w.TS
+	g.kinds["timeout-burst"]++
+	return b
+}
+
 // genXVMEpisode deploys the WASM contract with state functions and invokes it in two or three later blocks, so that a
 // replica restarted between the invocations has executed fewer of them in its process than one that ran through (gas,
 // fees and receipts must not depend on that).
